@@ -25,7 +25,7 @@ ASSUMPTIONS = ["layer 1 (valid for every file whatever the cause): a file the ru
                "sibling unchanged or still absent; exit 1 iff some file was reported failed",
                "layer 2: the recipe marks each argument must-fail / must-succeed by cause; usage errors (exit 2) must come with "
                "no mutation event inside the project"]
-MIN_NONTRIVIAL = {"quick": 100, "thorough": 4000}
+MIN_NONTRIVIAL = {"quick": 100, "thorough": 2000}
 
 KINDS = {
     "py": ("a.py", "python"),
